@@ -861,9 +861,20 @@ def c12(R, ctx):
         c, ci, r, ri = C.G.pair()
         pool.append(("C", c))
         pool.append(("S", c + r))
+    # structure-type roots, also cut inside a size-prefixed region and with an inner size too large (decodes that
+    # end with an exception must not influence later ones)
+    tcases = [c for c in C.wellformed(per_type=1, per_cc=0, corpus_n=0) if c[1].startswith("T:") and len(c[2]) >= 3]
+    aborted = []
+    for c in R.rng.sample(tcases, min(len(tcases), 24 if ctx["tier"] == "quick" else 90)):
+        pool.append((c[1], c[2]))
+        cut = c[2][:R.rng.randrange(1, len(c[2]))]
+        big = bytes([0xFF, 0xF0]) + c[2][2:]
+        aborted.append([(c[1], c[2]), (c[1], cut), (c[1], c[2])])
+        aborted.append([(c[1], c[2]), (c[1], big), (c[1], c[2])])
+        pool.append((c[1], cut))
     reqs = []
     hist = []
-    for items in same_cc:
+    for items in same_cc + aborted:
         hist.append(items)
         reqs.append("hist " + ",".join("%s~%s" % (root, h(b)) for root, b in items))
     for _ in range(60 if ctx["tier"] == "quick" else 600):
@@ -883,7 +894,7 @@ def c12(R, ctx):
                         % (r, len(items)), {"history": [{"root": root, "input_hex": h(b)} for root, b in items], "result": r,
                                             "how": "harness/impl_worker.py: " + q[:200]})
     R.coverage.update({"evaluations": len(reqs), "distinct_nontrivial": len(set(reqs)),
-                       "rule": "histories of 2-5 decodes drawn from messages with encrypted parameter areas of different commands (commands and responses) and ordinary pairs; each history is run sequentially twice and step-wise interleaved (round robin over next()); results compared with Python == (events, by-product objects, objects rebuilt from events); distinct = distinct histories",
+                       "rule": "histories of 2-5 decodes drawn from messages with encrypted parameter areas of different commands (commands and responses), ordinary pairs and structure-type roots incl. inputs cut inside a size-prefixed region or with an oversized inner size (decodes ending in an exception); each history is run in warn mode and in strict mode, sequentially twice and step-wise interleaved (round robin over next()); results compared with Python == (events, by-product objects, objects rebuilt from events); distinct = distinct histories",
                        "histories_with_two_or_more_encrypted_areas": enc_hist,
                        "samples": [{"history": reqs[0][:300], "result": res[0]}],
                        "correspondence_compares": "Model/Cache.v capacity = lru_cache(maxsize) read from /repo by the translator: %r" % (cur["cache"],)})
@@ -1186,6 +1197,12 @@ def c15(R, ctx):
         fe_reqs.append("fe hex " + h(ht)); fe_meta.append(("hex", ht, data))
         ev_reqs.append("fevents hex 1 S " + h(ht)); ev_ref.append(data); ev_meta.append(("hex", ht))
         ev_reqs.append("fevents auto 1 S " + h(ht)); ev_ref.append(data); ev_meta.append(("auto-hex", ht))
+        if R.rng.random() < 0.5:
+            # hex text after a long run of whitespace (detection must keep looking for the first pair)
+            ws = bytes(R.rng.choice(b" \t\n\r\x0b\x0c") for _ in range(R.rng.choice([13, 14, 15, 16, 17, 31, 40, 100])))
+            ht2 = ws + ht
+            fe_reqs.append("fe auto " + h(ht2)); fe_meta.append(("auto-small", ht2, None))
+            ev_reqs.append("fevents auto 1 S " + h(ht2)); ev_ref.append(data); ev_meta.append(("auto-hex", ht2))
         st = render_swtpm(R.rng, parts, R.rng.choice(["plain", "plain", "withS"]))
         fe_reqs.append("fe swtpm " + h(st)); fe_meta.append(("swtpm", st, data))
         ev_reqs.append("fevents swtpm 1 S " + h(st)); ev_ref.append(data); ev_meta.append(("swtpm", st))
